@@ -93,7 +93,32 @@ func (a lockSet) String() string {
 }
 
 func lockClassName(c *types.Var) string {
+	if b, ok := sharedBase[c]; ok {
+		return lockClassName(b) + "(read)"
+	}
 	return c.Pkg().Name() + "." + ownerOf(c) + "." + c.Name()
+}
+
+// A read lock (RWMutex.RLock) is tracked as a separate pseudo-class: it orders like its base
+// class but protects only reads.
+var sharedOf = map[*types.Var]*types.Var{}
+var sharedBase = map[*types.Var]*types.Var{}
+
+func sharedClass(c *types.Var) *types.Var {
+	if s, ok := sharedOf[c]; ok {
+		return s
+	}
+	s := types.NewVar(c.Pos(), c.Pkg(), c.Name()+"#R", c.Type())
+	sharedOf[c] = s
+	sharedBase[s] = c
+	return s
+}
+
+func baseClass(c *types.Var) *types.Var {
+	if b, ok := sharedBase[c]; ok {
+		return b
+	}
+	return c
 }
 
 var ownerCache = map[*types.Var]string{}
@@ -135,11 +160,16 @@ func lockOp(ci ssa.CallInstruction) (class *types.Var, op int) {
 	if rt != "*sync.Mutex" && rt != "*sync.RWMutex" {
 		return nil, 0
 	}
+	shared := false
 	switch f.Name() {
-	case "Lock", "RLock":
+	case "Lock":
 		op = 1
-	case "Unlock", "RUnlock":
+	case "RLock":
+		op, shared = 1, true
+	case "Unlock":
 		op = -1
+	case "RUnlock":
+		op, shared = -1, true
 	default:
 		return nil, 0
 	}
@@ -147,7 +177,11 @@ func lockOp(ci ssa.CallInstruction) (class *types.Var, op int) {
 	if !ok {
 		return nil, 0
 	}
-	return model.FieldOf(fa), op
+	cl := model.FieldOf(fa)
+	if shared && cl != nil {
+		cl = sharedClass(cl)
+	}
+	return cl, op
 }
 
 type lockAnalysis struct {
